@@ -9,6 +9,8 @@ From Coq Require Import ZArith List Bool Arith.
 Import ListNotations.
 From BQ Require Import lib.Trace lib.Cyclo pass.Rules pass.RulesThm gen.RulePasses pass.RulesGenThm.
 From BQ Require Import pass.ScanSkel pass.ScanSkelThm pass.ScanSkelIdx pass.ScanSkelWit.
+From BQ Require Import pass.Util pass.UtilThm pass.Analytic pass.AnalyticThm.
+From Coq Require Import Ring.
 
 (* ---- (i) each fixed rule: the replacement sub-circuit read from the live pass
    object denotes EXACTLY the gate the pass looks for (no global phase) ---------- *)
@@ -229,3 +231,117 @@ Proof.
   - intros o H. simpl in H. intuition (subst; discriminate).
   - intros c H. simpl in H. intuition (subst; repeat constructor; simpl; intuition discriminate).
 Qed.
+
+(* ======================================================================================
+   Family (ii): structural / utility passes -- list models (pass/Util.v)
+   ====================================================================================== *)
+(* UnfoldPass: unfolding is idempotent, leaves block-free circuits alone, respects program
+   order, and a qudit outside every block keeps its timeline *)
+Theorem C10_unfold_idempotent : forall c, unfold_all (as_bops (unfold_all c)) = unfold_all c.
+Proof. exact unfold_idempotent. Qed.
+Theorem C10_unfold_noop_without_blocks : forall l, unfold_all (as_bops l) = l.
+Proof. exact unfold_leaves. Qed.
+Theorem C10_unfold_program_order : forall a b, unfold_all (a ++ b) = unfold_all a ++ unfold_all b.
+Proof. exact unfold_app. Qed.
+Theorem C10_unfold_untouched_qudit : forall c q,
+  (forall loc body, In (Blk loc body) c -> in_range (length loc) (Blk (seq 0 (length loc)) body) = true /\ ~ In q loc) ->
+  proj leaf snd q (unfold_all c) =
+  proj leaf snd q (flat_map (fun o => match o with Leaf id loc => [(id, loc)] | Blk _ _ => [] end) c).
+Proof. exact unfold_untouched_qudit. Qed.
+
+(* GroupSingleQuditGatePass on a qudit timeline: nothing lost, order kept, groups are
+   non-empty, maximal and contain single-qudit gates only *)
+Theorem C10_group_single_timeline : forall tl,
+  ungroup (group_single tl) = map fst tl /\ well_grouped false (group_single tl) = true
+  /\ (forall ids id, In (Group ids) (group_single tl) -> In id ids -> In (id, true) tl).
+Proof. intros tl. exact (conj (group_single_ungroup tl) (conj (group_single_well tl) (group_single_only_singles tl))). Qed.
+
+(* ToU3Pass / ToVariablePass / BlockConversionPass: operations stay where they are; if the
+   converted gate denotes the same matrix (calc_params/get_params contract, an oracle
+   here) the circuit's product is unchanged -- for any monoid semantics *)
+Theorem C10_convert_timelines : forall (op : Type) (loc : op -> list nat) selected conv,
+  (forall o, loc (conv o) = loc o) ->
+  forall c q, map loc (proj op loc q (convert op selected conv c)) = map loc (proj op loc q c).
+Proof. exact convert_timeline_shape. Qed.
+Theorem C10_convert_preserves_unitary : forall (op : Type) selected conv (M : Type) (mul : M -> M -> M) (one : M) (den : op -> M),
+  (forall o, selected o = true -> den (conv o) = den o) ->
+  forall c, fold_right (fun o acc => mul (den o) acc) one (convert op selected conv c)
+          = fold_right (fun o acc => mul (den o) acc) one c.
+Proof. exact convert_preserves_product. Qed.
+
+(* CompressPass: an operation lands after everything earlier on its qudits, so every
+   qudit sees its operations in the original order *)
+Theorem C10_compress_order : forall c f k x j y,
+  In (k, x) (compress_aux f c) ->
+  (forall q, In q (snd x) -> used f q <= k) /\
+  (forall pre post, compress_aux f c = pre ++ (k, x) :: post -> In (j, y) post ->
+     (exists q, In q (snd x) /\ In q (snd y)) -> k < j).
+Proof. exact compress_order. Qed.
+
+Example C10_util_nonvacuous :
+  unfold_all [Leaf 0 [2]; Blk [2; 0] [Leaf 1 [1]; Blk [1; 0] [Leaf 2 [0; 1]]]; Leaf 3 [1]]
+    = [(0, [2]); (1, [0]); (2, [0; 2]); (3, [1])]
+  /\ group_single [(0, true); (1, true); (2, false); (3, true)] = [Group [0; 1]; Multi 2; Group [3]]
+  /\ compress [(0, [0]); (1, [1]); (2, [0; 1]); (3, [2])] = [(0, (0, [0])); (0, (1, [1])); (1, (2, [0; 1])); (0, (3, [2]))].
+Proof. repeat split; reflexivity. Qed.
+
+(* ======================================================================================
+   Family (iv): identities behind the analytic decompositions (pass/Analytic.v), for
+   EVERY ring with the stated elements; the numerical factorisations are hypotheses.
+   ====================================================================================== *)
+(* ZXZXZDecomposition: RZ(p).SX.RZ(t).SX.RZ(l) = e^{-i(p+l)/2} U3(t-pi, p-pi, l) for all
+   angles (a, b, c = e^{il/2}, e^{it/2}, e^{ip/2}; i^2 = -1; h = 1/2) *)
+Theorem C10_zxzxz_form : forall (R : Type) r0 r1 radd rmul rsub ropp,
+  ring_theory r0 r1 radd rmul rsub ropp (@eq R) ->
+  forall i h a a' b b' c c' : R,
+  rmul i i = ropp r1 -> radd h h = r1 -> rmul a a' = r1 -> rmul c c' = r1 ->
+  mmul2 R radd rmul (RZm R r0 c c') (mmul2 R radd rmul (SXm R r1 radd rmul ropp i h)
+    (mmul2 R radd rmul (RZm R r0 b b') (mmul2 R radd rmul (SXm R r1 radd rmul ropp i h) (RZm R r0 a a'))))
+  = scale2 R rmul (rmul c' a')
+      (U3m R rmul ropp (sin_t R rmul rsub ropp i h b b') (ropp (cos_t R radd rmul h b b'))
+           (ropp (rmul c c)) (rmul a a)).
+Proof. exact zxzxz_form. Qed.
+
+(* QSD / Block-ZXZ demultiplexing and the QSD recombination: block algebra over any
+   (non-commutative) ring of blocks; the Schur/eig/CS routines' contracts are hypotheses *)
+Theorem C10_qsd_demultiplex : forall (B : Type) b0 b1 badd bmul,
+  (forall x y z, bmul x (bmul y z) = bmul (bmul x y) z) ->
+  (forall x, bmul b1 x = x) -> (forall x, bmul x b1 = x) ->
+  (forall x, badd b0 x = x) -> (forall x, badd x b0 = x) ->
+  (forall x, bmul b0 x = b0) -> (forall x, bmul x b0 = b0) ->
+  forall u1 u2 u2' V V' D D' D2 : B,
+  bmul V (bmul D2 V') = bmul u1 u2' -> bmul D D = D2 -> bmul D' D = b1 -> bmul V V' = b1 -> bmul u2' u2 = b1 ->
+  bmmul B badd bmul (bdiag B b0 V V)
+    (bmmul B badd bmul (bdiag B b0 D D') (bdiag B b0 (W B bmul u2 V' D) (W B bmul u2 V' D)))
+  = bdiag B b0 u1 u2.
+Proof. exact demultiplex. Qed.
+
+Theorem C10_qsd_recombine : forall (B : Type) b0 b1 badd bmul,
+  (forall x y z, bmul x (bmul y z) = bmul (bmul x y) z) ->
+  (forall x, bmul b1 x = x) -> (forall x, bmul x b1 = x) ->
+  (forall x, badd b0 x = x) -> (forall x, badd x b0 = x) ->
+  (forall x, bmul b0 x = b0) -> (forall x, bmul x b0 = b0) ->
+  forall (U CS : BM B) u1 u2 u2' Vu Vu' Du Du' D2u v1 v2 v2' Vv Vv' Dv Dv' D2v,
+  U = bmmul B badd bmul (bdiag B b0 u1 u2) (bmmul B badd bmul CS (bdiag B b0 v1 v2)) ->
+  bmul Vu (bmul D2u Vu') = bmul u1 u2' -> bmul Du Du = D2u -> bmul Du' Du = b1 -> bmul Vu Vu' = b1 -> bmul u2' u2 = b1 ->
+  bmul Vv (bmul D2v Vv') = bmul v1 v2' -> bmul Dv Dv = D2v -> bmul Dv' Dv = b1 -> bmul Vv Vv' = b1 -> bmul v2' v2 = b1 ->
+  bmmul B badd bmul
+    (bmmul B badd bmul (bdiag B b0 Vu Vu) (bmmul B badd bmul (bdiag B b0 Du Du')
+        (bdiag B b0 (W B bmul u2 Vu' Du) (W B bmul u2 Vu' Du))))
+    (bmmul B badd bmul CS
+        (bmmul B badd bmul (bdiag B b0 Vv Vv) (bmmul B badd bmul (bdiag B b0 Dv Dv')
+            (bdiag B b0 (W B bmul v2 Vv' Dv) (W B bmul v2 Vv' Dv))))) = U.
+Proof. exact qsd_recombine. Qed.
+
+(* non-vacuity: the field with five elements satisfies the ZXZXZ hypotheses with i = 2,
+   1/2 = 3 and non-trivial units; the integers (1x1 blocks) satisfy the demultiplexing
+   hypotheses with D = -1 *)
+Example C10_analytic_nonvacuous :
+  ring_theory f0 f1 f5_add f5_mul f5_sub f5_opp (@eq F5)
+  /\ f5_mul f2 f2 = f5_opp f1 /\ f5_add f3 f3 = f1 /\ f5_mul f2 f3 = f1 /\ f5_mul f4 f4 = f1
+  /\ (let V := 1%Z in let D := (-1)%Z in
+      Z.mul V (Z.mul 1 V) = Z.mul (-1) (-1) /\ Z.mul D D = 1%Z /\
+      bmmul Z Z.add Z.mul (bdiag Z 0%Z V V)
+        (bmmul Z Z.add Z.mul (bdiag Z 0%Z D D) (bdiag Z 0%Z (W Z Z.mul (-1)%Z V D) (W Z Z.mul (-1)%Z V D)))
+      = bdiag Z 0%Z (-1)%Z (-1)%Z).
+Proof. split; [exact F5_ring | repeat split; reflexivity]. Qed.
